@@ -2275,14 +2275,42 @@ func c17UsageOfConfiguredRoots(p *Prog, r *Report, rule string) {
 			}
 		}
 	}
+	// the configured roots: the registry's field of type []string (whatever it is called); an element of it is
+	// the value variable of a range over it, or a variable defined as roots[i], or roots[i] itself
+	isRoots := func(e ast.Expr) bool {
+		sel, ok := ast.Unparen(e).(*ast.SelectorExpr)
+		if !ok {
+			return false
+		}
+		fv, ok := info.Uses[sel.Sel].(*types.Var)
+		if !ok || !fv.IsField() {
+			return false
+		}
+		sl, ok := fv.Type().Underlying().(*types.Slice)
+		return ok && types.Identical(sl.Elem(), types.Typ[types.String])
+	}
+	isRootElemExpr := func(e ast.Expr) bool {
+		ix, ok := ast.Unparen(e).(*ast.IndexExpr)
+		return ok && isRoots(ix.X)
+	}
 	for _, b := range bodies {
 		for _, rs := range rangeLoops(b) {
-			if sel, ok := ast.Unparen(rs.X).(*ast.SelectorExpr); ok && sel.Sel.Name == "roots" && rs.Value != nil {
+			if isRoots(rs.X) && rs.Value != nil {
 				if o := objOf(info, rs.Value); o != nil {
 					rootVars[o] = true
 				}
 			}
 		}
+		ast.Inspect(b, func(x ast.Node) bool {
+			if as, ok := x.(*ast.AssignStmt); ok && len(as.Lhs) == len(as.Rhs) {
+				for i, l := range as.Lhs {
+					if o := objOf(info, l); o != nil && isRootElemExpr(as.Rhs[i]) && singleDef(info, b, o) != nil {
+						rootVars[o] = true
+					}
+				}
+			}
+			return true
+		})
 	}
 	n, bad := 0, ""
 	for _, gn := range f.Nodes {
@@ -2294,6 +2322,9 @@ func c17UsageOfConfiguredRoots(p *Prog, r *Report, rule string) {
 				continue
 			}
 			n++
+			if isRootElemExpr(c.Args[1]) {
+				continue
+			}
 			if o := f.CanonObj(objOf(info, c.Args[1])); o == nil || !rootVars[o] {
 				bad = p.pos(c) + ": disk.Usage(" + types.ExprString(c.Args[1]) + ")"
 			}
